@@ -330,7 +330,7 @@ void StatementBuilder::decl_parameter(const char* name, bool ref)
     typeFragments.pop();
 
     if (ref) {
-        type = type.create_prefix(REF);
+        type = type.create_prefix(REF, position);
     }
 
     params.add_symbol(name, type, position);
@@ -514,7 +514,7 @@ void StatementBuilder::iteration_begin(const char* name)
     /* The iterator cannot be modified.
      */
     if (!type.is(CONSTANT)) {
-        type = type.create_prefix(CONSTANT);
+        type = type.create_prefix(CONSTANT, position);
     }
 
     /* The iteration statement has a local scope for the iterator.
